@@ -91,8 +91,10 @@ def order_tables(ctx, units, prefixes, prelude, rnd):
         p = rnd.choice(pn)
         cand.append(("au::%s<au::%s>" % (p, u.name), None, None))
         cand.append(("decltype(au::%s{} * au::mag<%d>())" % (u.name, rnd.choice([3, 7, 1000])), None, None))
-        cand.append(("au::Pow<au::%s, %d>" % (u.name, rnd.choice([2, 3, -1])), None, None))
-        cand.append(("au::RatioPow<au::%s, 1, %d>" % (u.name, rnd.choice([2, 3])), None, None))
+        e = rnd.choice([2, 3, -1])
+        cand.append(("au::Pow<au::%s, %d>" % (u.name, e), None, ("pow", u.name, Fraction(e))))
+        e = rnd.choice([2, 3])
+        cand.append(("au::RatioPow<au::%s, 1, %d>" % (u.name, e), None, ("pow", u.name, Fraction(1, e))))
     for _ in range(6 if not ctx.thorough else 30):
         a, b = rnd.sample(units, 2)
         cand.append(("au::UnitProductT<au::%s, au::%s>" % (a.name, b.name), None, None))
@@ -112,6 +114,14 @@ def order_tables(ctx, units, prefixes, prelude, rnd):
 
     def collide(i, j):
         a, b = cand[i], cand[j]
+        if isinstance(a[2], tuple) or isinstance(b[2], tuple):
+            # equal powers of two distinct named units of equal dimension and magnitude: a power has
+            # no origin, so Kelvins^2 / Celsius^2 tie like Hertz / Becquerel (documented limitation:
+            # "two distinct units that have the same Dimension, Magnitude, and Origin")
+            if not (isinstance(a[2], tuple) and isinstance(b[2], tuple)) or a[2][2] != b[2][2] or a[2][1] == b[2][1]:
+                return False
+            ua, ub = byname[a[2][1]], byname[b[2][1]]
+            return model.key(ua.dim) == model.key(ub.dim) and model.key(ua.mag) == model.key(ub.mag)
         if a[2] and b[2]:
             ua, ub = byname[a[2]], byname[b[2]]
             return a[2] != b[2] and model.key(ua.dim) == model.key(ub.dim) and model.key(ua.mag) == model.key(ub.mag) and ua.has_origin == ub.has_origin and not ua.has_origin
